@@ -108,6 +108,9 @@ type Reg struct {
 	// PtrErr: the error result is declared with a concrete pointer type that implements error
 	// (func(...) (T, *ConfigError)); nil means success (synthesised constructors only)
 	PtrErr bool
+	// SliceErr: the error result is declared with a slice-kind type that implements error
+	// (validation errors: type FieldErrors []error); nil means success
+	SliceErr bool
 	UseIn  bool
 	// PtrIn: the parameter object is taken by pointer (func(p *Params)); the harness keeps the
 	// pointer, as a service that stores its parameter object would (synthesised constructors only)
@@ -200,7 +203,9 @@ func (r Reg) String() string {
 			sb.WriteString("[" + o.Group + "]")
 		}
 	}
-	if r.HasErr && r.PtrErr && r.Kind == KindMakeFunc {
+	if r.HasErr && r.SliceErr && r.Kind == KindMakeFunc {
+		sb.WriteString(",[]err")
+	} else if r.HasErr && r.PtrErr && r.Kind == KindMakeFunc {
 		sb.WriteString(",*err")
 	} else if r.HasErr {
 		sb.WriteString(",err")
